@@ -37,7 +37,7 @@ import (
 )
 
 func main() {
-	vh.Main(vh.Commands{"replay": c15Replay, "trace": c15Trace, "cli": c15Cli})
+	vh.Main(vh.Commands{"replay": c15Replay, "trace": c15Trace, "cli": c15Cli, "phase": c15Phase})
 }
 
 type M = vh.M
@@ -916,11 +916,15 @@ func cliHistory(sink, bin string, poll, reopen, tail bool, r *rand.Rand, base st
 	}
 	defer s.stop()
 	seen := 0
+	lastSeen := time.Now()
 	// reports newly surfaced lines as read records; waits until `want` lines in total were seen
 	collect := func(want int, deadline time.Duration) bool {
 		end := time.Now().Add(deadline)
 		for {
 			ls := s.lines()
+			if seen < len(ls) {
+				lastSeen = time.Now()
+			}
 			for ; seen < len(ls); seen++ {
 				evs = append(evs, M{"event": "read", "data": B([]byte(ls[seen] + "\n"))})
 			}
@@ -960,6 +964,24 @@ func cliHistory(sink, bin string, poll, reopen, tail bool, r *rand.Rand, base st
 	if !collect(expectLines, 10*time.Second) {
 		evs = append(evs, M{"event": "quiet"})
 		return evs, nil
+	}
+	if poll {
+		// timing relative to the poller's round, production parameters (5 read attempts, 250 ms): a delivery
+		// restarts the round, so an append 4.5 delays after the last delivery lands between the last read
+		// attempt of the round and the stat of the path (FollowPoll_Gen's phase k = ReadAttempts); the
+		// file stays in place.  Timing steers coverage only - the expectation is the same wherever it lands.
+		for i, k := 0, 1+r.Intn(2); i < k; i++ {
+			if d := time.Until(lastSeen.Add(1125 * time.Millisecond)); d > 0 {
+				time.Sleep(d)
+			}
+			if err := appendLines(1 + r.Intn(2)); err != nil {
+				return nil, err
+			}
+			if !collect(expectLines, 10*time.Second) {
+				evs = append(evs, M{"event": "quiet"})
+				return evs, nil
+			}
+		}
 	}
 	if reopen && !poll && expectLines > 0 {
 		evs = append(evs, M{"event": "remove"})
